@@ -1025,7 +1025,16 @@ func (e *eng) Op(f []string, line string, out *hx.Out) {
 			// it must yield what an immediately consumed one yields
 			held := mk()
 			e.interfere(tab)
+			// a consumer may stop early (break) and range over the sequence again: it starts from the beginning
+			first := ""
+			for o, rev := range held {
+				first = objS(o, rev)
+				break
+			}
 			res = seqS(held)
+			if (first == "") != (res == "[]") || (first != "" && !strings.HasPrefix(res, "["+first)) {
+				bad += " !BAD:C04:sequence-after-early-break-differs"
+			}
 			again, fresh := seqS(held), seqS(mk())
 			if res != fresh || again != fresh {
 				bad = " !BAD:C01:held-sequence-changed-by-other-reader-or-by-consuming-it"
